@@ -42,9 +42,9 @@ pub fn addr_table() -> Vec<SocketAddr> {
         v6("::1", 80),
         v6("::1", 8443),
         v6("2001:db8::1", 443),
-        v6("2001:db8::1", 8080),
+        v6("2001:db8::abcd", 8080),
         v6("fe80::1", 80),
-        v6("fe80::1", 65535),
+        v6("fe80::1:2", 65535),
     ]
 }
 
@@ -88,21 +88,61 @@ pub fn tok_of(prefix: &str, s: &str) -> u64 {
         .and_then(|r| if r.len() == 3 { r.parse().ok() } else { None })
         .unwrap_or(9999)
 }
-pub fn cid(n: u64) -> String { s_tok("c", n) }
-pub fn bid(n: u64) -> String { s_tok("b", n) }
-pub fn host(n: u64) -> String { format!("h{n:03}.example") }
-pub fn host_tok(s: &str) -> u64 {
-    s.strip_suffix(".example").map(|r| tok_of("h", r)).unwrap_or(9999)
+/// token tables. Where the code orders the strings (cluster ids, backend ids, sticky ids) the
+/// table is ascending in byte order, so token order = string order. Every table holds case
+/// variants of one value, so that a transformation applied to the stored value but not to the
+/// key (or the other way round) changes the token.
+pub const CIDS: [&str; 5] = ["C000", "c000", "c001", "c002", "c00\u{e9}"];
+pub const BIDS: [&str; 4] = ["B000", "b000", "b001", "b002"];
+pub const HOSTS: [&str; 4] = ["h000.example", "h001.example", "H000.Example", "WWW.h000.EXAMPLE"];
+pub const PATHS: [&str; 5] = ["/p000", "/p001", "/P000", "/p000/", ""];
+pub const METHODS: [&str; 6] = ["GET", "get", "Post", "POST", "M004", "pUrGe"];
+pub const STICKY_NAMES: [&str; 3] = ["SOZUBALANCEID", "sozubalanceid", "s001"];
+pub const STICKY_IDS: [&str; 3] = ["K000", "k000", "k001"];
+
+fn tab(t: &[&str], prefix: &str, n: u64) -> String {
+    t.get(n as usize).map(|x| x.to_string()).unwrap_or_else(|| format!("{prefix}{n:03}"))
 }
-pub fn path(n: u64) -> String { s_tok("/p", n) }
-pub fn method(n: u64) -> String { s_tok("M", n) }
+fn untab(t: &[&str], prefix: &str, s: &str) -> u64 {
+    match t.iter().position(|x| *x == s) {
+        Some(i) => i as u64,
+        None => match s.strip_prefix(prefix).and_then(|r| if r.len() == 3 { r.parse::<u64>().ok() } else { None }) {
+            Some(n) if n as usize >= t.len() => n,
+            _ => 9999,
+        },
+    }
+}
+pub fn cid(n: u64) -> String { tab(&CIDS, "c", n) }
+pub fn cid_tok(s: &str) -> u64 { untab(&CIDS, "c", s) }
+pub fn bid(n: u64) -> String { tab(&BIDS, "b", n) }
+pub fn bid_tok(s: &str) -> u64 { untab(&BIDS, "b", s) }
+pub fn host(n: u64) -> String { tab(&HOSTS, "h", n) }
+pub fn host_tok(s: &str) -> u64 { untab(&HOSTS, "h", s) }
+pub fn path(n: u64) -> String { tab(&PATHS, "/p", n) }
+pub fn path_tok(s: &str) -> u64 { untab(&PATHS, "/p", s) }
+pub fn method(n: u64) -> String { tab(&METHODS, "M", n) }
+pub fn method_tok(s: &str) -> u64 { untab(&METHODS, "M", s) }
+pub fn sname(n: u64) -> String { tab(&STICKY_NAMES, "s", n) }
+pub fn sname_tok(s: &str) -> u64 { untab(&STICKY_NAMES, "s", s) }
+pub fn sticky_id(n: u64) -> String { tab(&STICKY_IDS, "k", n) }
+pub fn sticky_id_tok(s: &str) -> u64 { untab(&STICKY_IDS, "k", s) }
 pub fn tags(n: u64) -> BTreeMap<String, String> {
     let mut m = BTreeMap::new();
-    if n > 0 {
-        m.insert("tag".to_string(), s_tok("t", n));
-    }
-    if n > 1 {
-        m.insert("owner".to_string(), "verif".to_string());
+    match n {
+        0 => {}
+        1 => {
+            m.insert("tag".to_string(), "t001".to_string());
+        }
+        2 => {
+            m.insert("tag".to_string(), "T001".to_string());
+            m.insert("owner".to_string(), "verif".to_string());
+        }
+        3 => {
+            m.insert("Tag".to_string(), "t001".to_string());
+        }
+        _ => {
+            m.insert("tag".to_string(), s_tok("t", n));
+        }
     }
     m
 }
@@ -233,8 +273,10 @@ impl Pems {
             1 => {
                 c.certificate_chain = vec![self.chain.clone()];
                 c.versions = vec![4];
+                c.key = "Another Key".into();
             }
             2 => {
+                c.certificate_chain = vec![self.chain.clone(), self.pem[1].clone()];
                 c.key = "another key".into();
                 c.versions = vec![4, 5];
             }
@@ -333,35 +375,58 @@ pub fn parse_hc(w: &str) -> Option<Option<HealthCheckConfig>> {
     }
 }
 
+/// `rest` tokens: 0 = every unmodelled field at its default; 1 and 2 set two disjoint halves of the
+/// fields; 3 sets all of them to second values; 4 an unknown enum value. Every stored field thus
+/// takes at least two distinct non-default values.
 pub fn cluster(id: u64, h: Option<HealthCheckConfig>, rest: u64) -> Cluster {
+    use sozu_command_lib::proto::command::{UdpClusterConfig, UdpHealthConfig};
     let mut c = Cluster { cluster_id: cid(id), health_check: h, ..Default::default() };
-    match rest {
-        0 => {}
-        1 => {
-            c.sticky_session = true;
-            c.load_balancing = 1;
+    let udp = |k: u32| UdpClusterConfig {
+        affinity_key: Some(if k == 2 { 1 } else { 7 }),
+        responses: Some(k),
+        requests: Some(k + 1),
+        send_proxy_protocol: Some(k % 2 == 1),
+        proxy_protocol_every_datagram: Some(k % 2 == 0),
+        health: Some(UdpHealthConfig {
+            mode: Some(k as i32 - 1),
+            tcp_port: Some(8000 + k),
+            rise: Some(k),
+            fall: Some(k + 2),
+            fail_open: Some(k % 2 == 1),
+            udp_probe_payload: Some(vec![k as u8, 0, 255]),
+            probe_interval_seconds: Some(k + 5),
+            probe_timeout_seconds: Some(k + 1),
+        }),
+    };
+    if rest == 1 || rest == 3 {
+        c.sticky_session = true;
+        c.load_balancing = if rest == 1 { 1 } else { 3 };
+        c.answer_503 = Some(if rest == 1 { "a503-1".into() } else { "Gone".into() });
+        c.http2 = Some(rest == 1);
+        c.answers.insert("503".into(), format!("x{rest}"));
+        c.authorized_hashes = if rest == 1 { vec!["abc".into()] } else { vec!["ABC".into(), "def".into()] };
+        c.max_connections_per_ip = Some(if rest == 1 { 7 } else { 1 });
+    }
+    if rest == 2 || rest == 3 {
+        c.https_redirect = true;
+        c.proxy_protocol = Some(if rest == 2 { 1 } else { 2 });
+        c.load_metric = Some(if rest == 2 { 1 } else { 2 });
+        c.https_redirect_port = Some(if rest == 2 { 8443 } else { 443 });
+        c.www_authenticate = Some(if rest == 2 { "Basic".into() } else { "bearer realm=\"x\"".into() });
+        c.retry_after = Some(if rest == 2 { 3 } else { 30 });
+        c.udp = Some(udp(rest as u32));
+        if rest == 2 {
+            c.load_balancing = 5;
         }
-        2 => {
-            c.https_redirect = true;
-            c.http2 = Some(true);
-            c.answers.insert("503".into(), "x".into());
-            c.authorized_hashes = vec!["abc".into()];
-        }
-        3 => {
-            c.proxy_protocol = Some(1);
-            c.load_metric = Some(1);
-            c.max_connections_per_ip = Some(7);
-            c.retry_after = Some(3);
-            c.https_redirect_port = Some(8443);
-            c.www_authenticate = Some("Basic".into());
-            c.answer_503 = Some("gone".into());
-        }
-        _ => c.load_balancing = 77,
+    }
+    if rest >= 4 {
+        c.load_balancing = 77;
+        c.answers.insert("404".into(), format!("r{rest}"));
     }
     c
 }
 pub fn cluster_rest(c: &Cluster) -> u64 {
-    let id = tok_of("c", &c.cluster_id);
+    let id = cid_tok(&c.cluster_id);
     for r in 0..5 {
         if &cluster(id, c.health_check.clone(), r) == c {
             return r;
@@ -614,7 +679,7 @@ pub fn http_listener(l: &HL) -> HttpListenerConfig {
         address: sa(l.addr),
         public_address: l.public.map(sa),
         expect_proxy: l.expect_proxy,
-        sticky_name: s_tok("s", l.sticky),
+        sticky_name: sname(l.sticky),
         front_timeout: l.ft,
         back_timeout: l.bt,
         connect_timeout: l.ct,
@@ -630,8 +695,14 @@ pub fn http_listener(l: &HL) -> HttpListenerConfig {
         1 => {
             c.answers.insert("404".into(), "nf".into());
             c.send_x_real_ip = Some(true);
+            c.elide_x_real_ip = Some(true);
         }
-        2 => c.elide_x_real_ip = Some(false),
+        2 => {
+            c.answers.insert("404".into(), "NF".into());
+            c.answers.insert("503".into(), "r2".into());
+            c.send_x_real_ip = Some(false);
+            c.elide_x_real_ip = Some(false);
+        }
         _ => {
             c.answers.insert("503".into(), format!("r{}", l.rest));
         }
@@ -643,7 +714,7 @@ pub fn hl_of_http(c: &HttpListenerConfig) -> HL {
         addr: sa_tok(&c.address),
         public: c.public_address.as_ref().map(sa_tok),
         expect_proxy: c.expect_proxy,
-        sticky: tok_of("s", &c.sticky_name),
+        sticky: sname_tok(&c.sticky_name),
         ft: c.front_timeout,
         bt: c.back_timeout,
         ct: c.connect_timeout,
@@ -672,7 +743,7 @@ pub fn https_listener(l: &HL) -> HttpsListenerConfig {
         address: sa(l.addr),
         public_address: l.public.map(sa),
         expect_proxy: l.expect_proxy,
-        sticky_name: s_tok("s", l.sticky),
+        sticky_name: sname(l.sticky),
         front_timeout: l.ft,
         back_timeout: l.bt,
         connect_timeout: l.ct,
@@ -686,24 +757,29 @@ pub fn https_listener(l: &HL) -> HttpsListenerConfig {
         ..Default::default()
     };
     knobs_set!(c, l.knobs);
-    match l.rest {
-        0 => {}
-        1 => {
-            c.versions = vec![4, 5];
-            c.cipher_list = vec!["ECDHE-RSA-AES128-GCM-SHA256".into()];
-            c.send_tls13_tickets = 4;
-            c.hsts = Some(HstsConfig { enabled: Some(true), max_age: Some(31536000), ..Default::default() });
-        }
-        2 => {
-            c.certificate = Some("default cert".into());
-            c.key = Some("default key".into());
-            c.certificate_chain = vec!["chain".into()];
-            c.groups_list = vec!["x25519".into()];
-            c.answers.insert("404".into(), "nf".into());
-        }
-        _ => {
-            c.cipher_suites = vec![format!("r{}", l.rest)];
-        }
+    if l.rest == 1 || l.rest == 2 {
+        let k = l.rest as u32;
+        c.versions = if k == 1 { vec![4, 5] } else { vec![5] };
+        c.cipher_list = vec![if k == 1 { "ECDHE-RSA-AES128-GCM-SHA256".into() } else { "ecdhe-rsa-aes256-gcm-sha384".into() }];
+        c.cipher_suites = vec![format!("TLS13_AES_{}_GCM", 128 * k)];
+        c.signature_algorithms = vec![if k == 1 { "ECDSA+SHA256".into() } else { "rsa_pss_rsae_sha256".into() }];
+        c.groups_list = vec![if k == 1 { "x25519".into() } else { "P-256".into() }];
+        c.certificate = Some(format!("default cert {k}"));
+        c.key = Some(format!("Default Key {k}"));
+        c.certificate_chain = vec![format!("chain {k}")];
+        c.send_tls13_tickets = 2 * k as u64;
+        c.hsts = Some(HstsConfig {
+            enabled: Some(k == 1),
+            max_age: Some(31536000 / k),
+            include_subdomains: Some(k == 2),
+            preload: Some(k == 1),
+            force_replace_backend: Some(k == 2),
+        });
+        c.answers.insert("404".into(), if k == 1 { "nf".into() } else { "NF".into() });
+        c.send_x_real_ip = Some(k == 1);
+        c.elide_x_real_ip = Some(k == 2);
+    } else if l.rest > 2 {
+        c.cipher_suites = vec![format!("r{}", l.rest)];
     }
     c
 }
@@ -712,7 +788,7 @@ pub fn hl_of_https(c: &HttpsListenerConfig) -> HL {
         addr: sa_tok(&c.address),
         public: c.public_address.as_ref().map(sa_tok),
         expect_proxy: c.expect_proxy,
-        sticky: tok_of("s", &c.sticky_name),
+        sticky: sname_tok(&c.sticky_name),
         ft: c.front_timeout,
         bt: c.back_timeout,
         ct: c.connect_timeout,
@@ -790,20 +866,28 @@ pub fn udp_words(c: &UdpListenerConfig) -> Vec<String> {
 // ----------------------------------------------------------------- fronts --
 
 pub fn front_rest(f: &mut RequestHttpFrontend, rest: u64) {
-    match rest {
-        0 => {}
-        1 => {
-            f.redirect = Some(1);
-            f.redirect_scheme = Some(1);
-            f.required_auth = Some(true);
-        }
-        2 => {
-            f.rewrite_host = Some("rw.example".into());
-            f.rewrite_path = Some("/rw".into());
-            f.rewrite_port = Some(8081);
-            f.hsts = Some(HstsConfig { enabled: Some(true), max_age: Some(60), ..Default::default() });
-        }
-        _ => f.redirect_template = Some(format!("tpl{rest}")),
+    use sozu_command_lib::proto::command::Header;
+    if rest == 1 || rest == 2 {
+        let k = rest as u32;
+        f.redirect = Some(k as i32);
+        f.redirect_scheme = Some(k as i32);
+        f.required_auth = Some(k == 1);
+        f.redirect_template = Some(if k == 1 { "https://%HOST/%PATH".into() } else { "HTTP://other/%path".into() });
+        f.rewrite_host = Some(if k == 1 { "rw.example".into() } else { "RW.Example".into() });
+        f.rewrite_path = Some(if k == 1 { "/rw".into() } else { "/RW/".into() });
+        f.rewrite_port = Some(8080 + k);
+        f.headers = (0..k)
+            .map(|i| Header { position: 1 + i as i32, key: if i == 0 { "X-Verif".into() } else { "x-verif".into() }, val: format!("v{k}{i}") })
+            .collect();
+        f.hsts = Some(HstsConfig {
+            enabled: Some(k == 1),
+            max_age: Some(60 * k),
+            include_subdomains: Some(k == 2),
+            preload: Some(k == 2),
+            force_replace_backend: Some(k == 1),
+        });
+    } else if rest > 2 {
+        f.redirect_template = Some(format!("tpl{rest}"));
     }
 }
 pub fn req_front(w: &[&str]) -> Option<RequestHttpFrontend> {
@@ -843,12 +927,12 @@ pub fn req_front_words(f: &RequestHttpFrontend) -> Vec<String> {
         }
     }
     vec![
-        opt_word(&f.cluster_id.as_ref().map(|c| tok_of("c", c))),
+        opt_word(&f.cluster_id.as_ref().map(|c| cid_tok(c))),
         sa_tok(&f.address).to_string(),
         host_tok(&f.hostname).to_string(),
         f.path.kind.to_string(),
-        tok_of("/p", &f.path.value).to_string(),
-        opt_word(&f.method.as_ref().map(|m| tok_of("M", m))),
+        path_tok(&f.path.value).to_string(),
+        opt_word(&f.method.as_ref().map(|m| method_tok(m))),
         f.position.to_string(),
         tags_tok(&f.tags).to_string(),
         rest.to_string(),
@@ -873,7 +957,7 @@ pub fn key_word(k: &str) -> String {
             None => (r, None),
         };
         let kind: String = msg.chars().filter(|c| c.is_ascii_digit()).collect();
-        return format!("W{};{}", kind, opt_word(&m.map(|m| tok_of("M", m))));
+        return format!("W{};{}", kind, opt_word(&m.map(|m| method_tok(m))));
     }
     let parts: Vec<&str> = k.split(';').collect();
     if parts.len() < 3 {
@@ -891,21 +975,21 @@ pub fn key_word(k: &str) -> String {
         a.map(|a| addr_tok(&a)).unwrap_or(9999),
         host_tok(parts[1]),
         kind,
-        tok_of("/p", p),
-        opt_word(&parts.get(3).map(|m| tok_of("M", m)))
+        path_tok(p),
+        opt_word(&parts.get(3).map(|m| method_tok(m)))
     )
 }
 
 pub fn tf_words(cluster: &str, a: u64, t: &BTreeMap<String, String>) -> Vec<String> {
-    vec![tok_of("c", cluster).to_string(), a.to_string(), tags_tok(t).to_string()]
+    vec![cid_tok(cluster).to_string(), a.to_string(), tags_tok(t).to_string()]
 }
 
 pub fn backend_words(cluster: &str, id: &str, a: u64, sticky: &Option<String>, lb: &Option<LoadBalancingParams>, backup: &Option<bool>) -> Vec<String> {
     vec![
-        tok_of("c", cluster).to_string(),
-        tok_of("b", id).to_string(),
+        cid_tok(cluster).to_string(),
+        bid_tok(id).to_string(),
         a.to_string(),
-        opt_word(&sticky.as_ref().map(|s| tok_of("k", s))),
+        opt_word(&sticky.as_ref().map(|s| sticky_id_tok(s))),
         lb.as_ref().map(|l| format!("w{}", l.weight)).unwrap_or_else(|| "-".into()),
         optb_word(backup),
     ]
@@ -926,7 +1010,7 @@ macro_rules! patch_shared {
         $p.address = sa($w[0].parse().ok()?);
         $p.public_address = parse_opt_u64($w[1])?.map(sa);
         $p.expect_proxy = parse_opt_b($w[2])?;
-        $p.sticky_name = parse_opt_u64($w[3])?.map(|n| s_tok("s", n));
+        $p.sticky_name = parse_opt_u64($w[3])?.map(|n| sname(n));
         $p.front_timeout = parse_opt_u64($w[4])?.map(|n| n as u32);
         $p.back_timeout = parse_opt_u64($w[5])?.map(|n| n as u32);
         $p.connect_timeout = parse_opt_u64($w[6])?.map(|n| n as u32);
@@ -940,7 +1024,7 @@ macro_rules! patch_shared_words {
             sa_tok(&$p.address).to_string(),
             opt_word(&$p.public_address.as_ref().map(sa_tok)),
             optb_word(&$p.expect_proxy),
-            opt_word(&$p.sticky_name.as_ref().map(|s| tok_of("s", s))),
+            opt_word(&$p.sticky_name.as_ref().map(|s| sname_tok(s))),
             opt_word(&$p.front_timeout),
             opt_word(&$p.back_timeout),
             opt_word(&$p.connect_timeout),
@@ -1043,7 +1127,7 @@ pub fn parse_cmd(pems: &Pems, w: &[&str]) -> Option<Request> {
             cluster_id: cid(c.parse().ok()?),
             backend_id: bid(b.parse().ok()?),
             address: sa(a.parse().ok()?),
-            sticky_id: parse_opt_u64(st)?.map(|n| s_tok("k", n)),
+            sticky_id: parse_opt_u64(st)?.map(|n| sticky_id(n)),
             load_balancing_parameters: if *wt == "-" {
                 None
             } else {
@@ -1081,6 +1165,11 @@ pub fn parse_cmd(pems: &Pems, w: &[&str]) -> Option<Request> {
             p.sozu_id_header = parse_sid(r[13])?;
             let ign: u64 = r[14].parse().ok()?;
             patch_ign!(p, ign);
+            if ign > 0 {
+                // another patch field the code never reads
+                p.hsts = Some(HstsConfig { enabled: Some(ign % 2 == 1), max_age: Some(ign as u32), include_subdomains: Some(ign % 2 == 0),
+                                           preload: Some(ign == 1), force_replace_backend: Some(ign == 2) });
+            }
             RequestType::UpdateHttpsListener(p)
         }
         ("updtcpl", [a, pu, ep, ft, bt, ct]) => RequestType::UpdateTcpListener(UpdateTcpListenerConfig {
@@ -1121,14 +1210,14 @@ pub fn cmd_words(pems: &Pems, r: &Request) -> Vec<String> {
     match &r.request_type {
         None => return vec![s("empty")],
         Some(RequestType::AddCluster(c)) => {
-            v = vec![s("addcluster"), tok_of("c", &c.cluster_id).to_string(),
+            v = vec![s("addcluster"), cid_tok(&c.cluster_id).to_string(),
                      c.health_check.as_ref().map(hc_word).unwrap_or_else(|| s("-")), cluster_rest(c).to_string()];
         }
-        Some(RequestType::RemoveCluster(id)) => v = vec![s("rmcluster"), tok_of("c", id).to_string()],
+        Some(RequestType::RemoveCluster(id)) => v = vec![s("rmcluster"), cid_tok(id).to_string()],
         Some(RequestType::SetHealthCheck(h)) => {
-            v = vec![s("sethc"), tok_of("c", &h.cluster_id).to_string(), hc_word(&h.config)]
+            v = vec![s("sethc"), cid_tok(&h.cluster_id).to_string(), hc_word(&h.config)]
         }
-        Some(RequestType::RemoveHealthCheck(id)) => v = vec![s("rmhc"), tok_of("c", id).to_string()],
+        Some(RequestType::RemoveHealthCheck(id)) => v = vec![s("rmhc"), cid_tok(id).to_string()],
         Some(RequestType::AddHttpListener(l)) => {
             v = vec![s("addhttpl")];
             v.extend(hl_words(&hl_of_http(l)));
@@ -1207,8 +1296,8 @@ pub fn cmd_words(pems: &Pems, r: &Request) -> Vec<String> {
                                    &b.load_balancing_parameters, &b.backup));
         }
         Some(RequestType::RemoveBackend(b)) => {
-            v = vec![s("rmbackend"), tok_of("c", &b.cluster_id).to_string(),
-                     tok_of("b", &b.backend_id).to_string(), sa_tok(&b.address).to_string()];
+            v = vec![s("rmbackend"), cid_tok(&b.cluster_id).to_string(),
+                     bid_tok(&b.backend_id).to_string(), sa_tok(&b.address).to_string()];
         }
         Some(RequestType::UpdateHttpListener(p)) => {
             v = vec![s("updhttpl")];
@@ -1263,8 +1352,8 @@ pub fn dump(pems: &Pems, s: &ConfigState) -> String {
     for (k, c) in &s.clusters {
         e.push(format!(
             "C{}:{}:{}:{}",
-            tok_of("c", k),
-            tok_of("c", &c.cluster_id),
+            cid_tok(k),
+            cid_tok(&c.cluster_id),
             c.health_check.as_ref().map(hc_word).unwrap_or_else(|| "-".into()),
             cluster_rest(c)
         ));
@@ -1277,7 +1366,7 @@ pub fn dump(pems: &Pems, s: &ConfigState) -> String {
                               &b.load_balancing_parameters, &b.backup).join("/")
             })
             .collect();
-        e.push(format!("B{}:[{}]", tok_of("c", k), bs.join(";")));
+        e.push(format!("B{}:[{}]", cid_tok(k), bs.join(";")));
     }
     for (k, l) in &s.http_listeners {
         e.push(format!("H{}:{}", addr_tok(k), hl_words(&hl_of_http(l)).join(":")));
@@ -1301,13 +1390,13 @@ pub fn dump(pems: &Pems, s: &ConfigState) -> String {
         let mut fs: Vec<String> =
             l.iter().map(|f: &TcpFrontend| tf_words(&f.cluster_id, addr_tok(&f.address), &f.tags).join("/")).collect();
         fs.sort();
-        e.push(format!("X{}:[{}]", tok_of("c", k), fs.join(";")));
+        e.push(format!("X{}:[{}]", cid_tok(k), fs.join(";")));
     }
     for (k, l) in &s.udp_fronts {
         let mut fs: Vec<String> =
             l.iter().map(|f: &UdpFrontend| tf_words(&f.cluster_id, addr_tok(&f.address), &f.tags).join("/")).collect();
         fs.sort();
-        e.push(format!("Y{}:[{}]", tok_of("c", k), fs.join(";")));
+        e.push(format!("Y{}:[{}]", cid_tok(k), fs.join(";")));
     }
     for (k, m) in &s.certificates {
         let mut cs: Vec<(u64, String)> = m
